@@ -26,6 +26,7 @@ type c01Case struct {
 // findings; known-finding shapes are counted as excluded).
 func c01Kinds(cmd string) []string {
 	ks := progen.DefaultKinds()
+	ks = append(ks, "unicode", "unicode") // more weight: non-ASCII exported names used across packages
 	ks = append(ks, progen.KindsNeeding("linkname")...)
 	ks = append(ks, progen.KindsNeeding("asm")...)
 	ks = append(ks, progen.KindsNeeding("ldflags")...)
@@ -181,6 +182,13 @@ func TestC01(t *testing.T) {
 		c.Cmd = rapid.SampledFrom([]string{"build", "build", "build", "build", "run", "test"}).Draw(t, "cmd")
 		c.Spec = progen.Draw(t, progen.Options{Kinds: c01Kinds(c.Cmd), MinPkgs: 1, MaxPkgs: 5, MinFeats: 2, MaxFeats: 8})
 		c.Cfg = drawConfig(t, "cfg", true)
+		// Exportedness of a non-ASCII name only matters across a package
+		// boundary: place the user of a unicode feature in an earlier package.
+		for i := range c.Spec.Feats {
+			if f := &c.Spec.Feats[i]; f.Kind == "unicode" && f.User == f.Prov && f.Prov > 0 {
+				f.User = f.Prov - 1
+			}
+		}
 		v, prog, labels := c01Run(c)
 		stats.Case(stats.Desc(prog.FeatureSet(), c.Cfg.Class(), c.Cmd), c01Nontrivial(prog), labels,
 			map[string]any{"features": prog.FeatureSet(), "config": c.Cfg.Key(), "cmd": c.Cmd, "packages": len(c.Spec.Pkgs), "args": c.Spec.Args})
